@@ -675,6 +675,7 @@ class Engine:
             self.assume(toz(self.spec_eval(r, env)))
         old = {k: self.snapshot(v) for k, v in env.items()}
         entry = dict(env)      # parameter names in postconditions denote the objects passed in (python may rebind the local)
+        env['__old__'] = old   # old(e) is also available in loop invariants and hints
         self.frames = [dict(contract=c, old=old, loopno=0, yields=[], rel=rel, qual=qual, node=node)]
         for k in self.yield_sites(self.frames[0]).values():
             env['_y{}'.format(k)] = z3.IntVal(0)
@@ -839,6 +840,13 @@ class Engine:
             o = self.eval(t.value, env)
             if not isinstance(o, VObj):
                 raise Unsupported('attribute store on non-object')
+            fty = self.classmodels.get(o.cls, {}).get('fields', {}).get(t.attr)
+            if isinstance(v, VTuple) and not v.items and fty == 'mclist':
+                v = VMList(specs.cnil)            # `self._clauses = []`
+            elif isinstance(v, VTuple) and not v.items and fty == 'molist':
+                v = VMList(specs.onil)
+            elif fty == 'opaque' and not isinstance(v, VOpaque):
+                v = VOpaque(t.attr)
             o.fields[t.attr] = v
             return
         if isinstance(t, ast.Subscript):
@@ -1231,12 +1239,25 @@ class Engine:
         raise Unsupported('unary op')
 
     def ev_BoolOp(self, e, env):
+        # python value semantics when the truthiness of the operands is concrete (`clauses or []`)
+        if not getattr(self, 'in_spec', False):
+            first = self.eval(e.values[0], env)
+            t = None
+            try:
+                t = as_bool(first)
+            except Unsupported:
+                pass
+            if isinstance(t, bool) and len(e.values) == 2:
+                if isinstance(e.op, ast.Or):
+                    return first if t else self.eval(e.values[1], env)
+                return self.eval(e.values[1], env) if t else first
         # short-circuit semantics matter for hazards: evaluate operands under the guard
         vals = []
         saved = len(self.pc)
+        pre = {0: first} if not getattr(self, 'in_spec', False) else {}
         try:
-            for x in e.values:
-                v = as_bool(self.eval(x, env))
+            for ix, x in enumerate(e.values):
+                v = as_bool(pre[ix] if ix in pre else self.eval(x, env))
                 vals.append(v)
                 g = v if isinstance(e.op, ast.And) else znot(v)
                 if g is False:
@@ -1539,7 +1560,7 @@ class Engine:
             raise Unsupported('subscript of range')
         if isinstance(base, VObj):
             return self.call_method(base, '__getitem__', [idx], {}, e)
-        if isinstance(base, VOpaque):
+        if isinstance(base, VOpaque) or (isinstance(base, tuple) and base and base[0] == 'global'):
             return '<str>'
         if isinstance(base, VStr):
             i = toz(idx) if getattr(self, 'in_spec', False) else self.norm_index(idx, specs.slen(base.term), e)
@@ -2674,6 +2695,7 @@ def lm_readlines(eng, node, o):
 
 LIBRARY['random.choice'] = lib_random_choice
 LIBRARY['random.shuffle'] = lib_random_shuffle
+LIBRARY['collections.OrderedDict'] = lambda eng, node, *a: VOpaque('OrderedDict')
 LIBRARY['copy.copy'] = lib_copy
 LIBRARY['copy'] = lib_copy
 LIBRARY['bisect.bisect_right'] = lib_bisect_right
